@@ -26,8 +26,10 @@ SEL4_SOME = [[0, 1], [1, 0], [2, 3], [3, 1], [0, 3], [1, 2, 3], [0, 2, 3], [3, 0
              [0, 1, 2, 3], [3, 2, 1, 0], [1, 3, 0, 2]]
 
 KW_FULL = [{}, {"MRTS": 2 * U}, {"RI": True, "MRTS": 1.5 * U}, {"max_tau": U, "MRTS": 6 * U},
-           {"interval": "mid"}, {"MRTS": "auto"}, {"interval": "late", "max_tau": U}]
-KW_SOME = [{}, {"max_tau": U, "MRTS": 6 * U, "RI": True}, {"interval": "mid", "MRTS": 2 * U}]
+           {"interval": "mid"}, {"MRTS": "auto"}, {"interval": "late", "max_tau": U},
+           {"interval": "seq", "RI": True}]
+KW_SOME = [{}, {"max_tau": U, "MRTS": 6 * U, "RI": True}, {"interval": "mid", "MRTS": 2 * U},
+           {"interval": "seq"}]
 
 
 def measures():
@@ -58,7 +60,7 @@ def measures():
 def plan(tier):
     if tier == "quick":
         specs = [(3, [("dense", 1, 2)], "all", KW_FULL[2:], True),
-                 (3, [("bounded", 2, 3, 3)], "some", KW_SOME, True),
+                 (3, [("bounded", 2, 3, 3)], "some", KW_SOME[:3], True),
                  (4, [("dense", 1, 1), ("bounded", 2, 2, 2)], "some", KW_SOME[:2], True)]
     else:
         specs = [(3, [("dense", 1, 3)], "all", KW_FULL, False),
@@ -103,7 +105,8 @@ def _kw(kw, edges):
     if "interval" in out:
         ts, te = edges
         T = te - ts
-        out["interval"] = [ts + T / 4, te - T / 4] if out["interval"] == "mid" else [ts + T / 2, te]
+        out["interval"] = {"mid": [ts + T / 4, te - T / 4], "late": [ts + T / 2, te],
+                           "seq": [[ts, ts + T / 4], [ts + T / 2, te]]}[out["interval"]]
     return out
 
 
